@@ -747,6 +747,14 @@ pub fn run_parent(info: &CheckInfo, tier: Tier, extra_cov: Option<Value>) -> i32
         println!("KNOWN-FINDING: property={prop} {what} ({n} case(s) in this run)");
     }
     let rdir = Path::new(VERIF_ROOT).join("replays").join(prop);
+    // replay files describe this run only
+    if let Ok(rd) = std::fs::read_dir(&rdir) {
+        for e in rd.flatten() {
+            if e.file_name().to_string_lossy().starts_with(tier.name()) {
+                let _ = std::fs::remove_file(e.path());
+            }
+        }
+    }
     let mut replay_paths = vec![];
     if !new_violations.is_empty() {
         std::fs::create_dir_all(&rdir).unwrap();
